@@ -15,6 +15,7 @@ pub enum Expand {
     LexError(String),
     Timeout(f64),
     Died,
+    Nondeterministic(String),
 }
 
 impl Expand {
@@ -32,6 +33,7 @@ impl Expand {
             Expand::LexError(m) => format!("lex_error: {}", trunc(m, 200)),
             Expand::Timeout(s) => format!("timeout after {:.1}s", s),
             Expand::Died => "worker died (memory limit or abort)".to_string(),
+            Expand::Nondeterministic(m) => format!("nondeterministic: {}", m),
         }
     }
 }
@@ -124,7 +126,11 @@ impl Worker {
     }
 
     pub fn expand(&mut self, def: &str, want_code: bool, timeout: Duration) -> Expand {
-        let v = match self.request(&json!({"op": "expand", "def": def, "code": want_code}), timeout) {
+        self.expand_opt(def, want_code, false, timeout)
+    }
+
+    pub fn expand_opt(&mut self, def: &str, want_code: bool, twice: bool, timeout: Duration) -> Expand {
+        let v = match self.request(&json!({"op": "expand", "def": def, "code": want_code, "twice": twice}), timeout) {
             Ok(v) => v,
             Err(e) => return e,
         };
@@ -138,6 +144,7 @@ impl Worker {
             Some("compile_error") => Expand::CompileError(msg),
             Some("panic") => Expand::Panic(msg),
             Some("lex_error") => Expand::LexError(msg),
+            Some("nondeterministic") => Expand::Nondeterministic(msg),
             _ => Expand::Died,
         }
     }
@@ -174,9 +181,14 @@ pub fn macro_body(printed: &str) -> String {
 
 /// Expands all definitions on a pool of workers; results in input order.
 pub fn expand_all(defs: &[String], timeout: Duration, want_code: bool, n_workers: usize) -> Vec<Expand> {
+    expand_all_opt(defs, timeout, want_code, false, n_workers).into_iter().map(|(e, _)| e).collect()
+}
+
+/// Like `expand_all`; also returns the wall time of each expansion.
+pub fn expand_all_opt(defs: &[String], timeout: Duration, want_code: bool, twice: bool, n_workers: usize) -> Vec<(Expand, f64)> {
     let n = defs.len();
     let next = std::sync::atomic::AtomicUsize::new(0);
-    let results: Vec<std::sync::Mutex<Option<Expand>>> =
+    let results: Vec<std::sync::Mutex<Option<(Expand, f64)>>> =
         (0..n).map(|_| std::sync::Mutex::new(None)).collect();
     std::thread::scope(|s| {
         for _ in 0..n_workers.min(n.max(1)) {
@@ -187,14 +199,15 @@ pub fn expand_all(defs: &[String], timeout: Duration, want_code: bool, n_workers
                     if i >= n {
                         break;
                     }
-                    let r = w.expand(&defs[i], want_code, timeout);
-                    *results[i].lock().unwrap() = Some(r);
+                    let t0 = Instant::now();
+                    let r = w.expand_opt(&defs[i], want_code, twice, timeout);
+                    *results[i].lock().unwrap() = Some((r, t0.elapsed().as_secs_f64()));
                 }
             });
         }
     });
     results
         .into_iter()
-        .map(|m| m.into_inner().unwrap().unwrap_or(Expand::Died))
+        .map(|m| m.into_inner().unwrap().unwrap_or((Expand::Died, 0.0)))
         .collect()
 }
